@@ -1,4 +1,26 @@
-"""Per-property metadata for evidence files."""
+"""Per-property metadata: what is claimed, at which level, with which caveats."""
+HOOK_COMMITS = []
+_T = "contract-based deductive verification: VCs generated from the Python AST of the real functions (sidecar contracts), discharged by z3 (cvc5 on unknown); counterexamples replayed on the real code"
+_NOTE = ("Assumes A1 (floats are reals), A2 (ints mathematical), A3 (tvc operation table states torch/tensordict semantics), "
+         "A12 (Python semantics of the interpreter); see DESIGN.md section 7. Functions under contract are listed in the evidence file; "
+         "everything outside them is unverified.")
 META = {}
 for _p in ["C%02d" % i for i in range(1, 21)]:
-    META[_p] = {"level": "proof", "not_covered": [], "assumptions": [], "explanation": ""}
+    META[_p] = {"claimed": False, "level": "proof", "level_text": "", "level_note": _NOTE, "technique": _T,
+                "not_covered": [], "assumptions": [], "explanation": ""}
+
+
+def claim(pid, text, level="proof", note=None, not_covered=(), explanation="", assumptions=()):
+    META[pid].update(claimed=True, level=level, level_text=text, not_covered=list(not_covered), explanation=explanation,
+                     assumptions=list(assumptions))
+    if note:
+        META[pid]["level_note"] = note + " " + _NOTE
+
+
+claim("C01", "Proof, for all batch sizes, problem sizes and states, of the one-step obligations (reset establishes the invariant; an advertised action is enabled in the independent problem definition; the successor state refines next(sigma,a); done iff complete) on the real _reset/_step/get_action_mask bodies of the environments listed in the evidence.")
+claim("C02", "Proof of liveness (some action advertised in every reachable state), done-stability and a strictly decreasing variant with the stated step bound, per environment listed in the evidence.")
+claim("C03", "Proof that _get_reward equals the objective recomputed from instance data and the action sequence (over the reals), per environment listed in the evidence.",
+      not_covered=["float32 rounding (A1)"])
+claim("C04", "Proof of 2-run non-interference (independent batch sizes incl. 1 and row positions) of the env methods listed in the evidence, plus padding idempotence of finished rows.")
+claim("C05", "Proof that every enabled, non-pruned action of the problem definition is advertised by the mask (including constraints met with equality), per environment listed in the evidence.",
+      not_covered=["that pruned moves never carry the optimum (A7, paper-level argument)", "float32 rounding at exact boundaries (A1)"])
